@@ -26,13 +26,21 @@ Theorem fs_unreachable_in_sessions :
     Forall (fun seg => caps_fs (fst seg) = false) segs -> forall n, ~ In ("fs", n) (reachable_session segs).
 Proof. exact fs_session_unreachable_lemma. Qed.
 
-(* REFUTED when only the *current* configuration lacks the bit: std.fs natives registered under a
-   permitting configuration stay registered after VM::set_capabilities lowers it (the fs/net
-   natives test nothing per call) *)
-Theorem lowering_caps_keeps_natives_refuted :
+(* std.fs / std.net natives registered under a permitting configuration stay registered when the
+   configuration is lowered later (VM::set_capabilities) ... *)
+Theorem lowering_caps_keeps_natives_registered :
   caps_fs default_config = false /\
   In ("fs", "write_text") (reachable_session [(cfg_fs_on, [LStd "fs"]); (default_config, [])]).
 Proof. exact lowering_caps_keeps_natives. Qed.
+
+(* ... but (since the repair of KF-C11-3) every one of them re-checks the capability when called:
+   whatever the session's history, a call under a configuration without the bit is refused *)
+Theorem revoked_capability_is_refused :
+  (forall (segs : list (config * list load_request)) (c : config) (n : string),
+     caps_fs c = false -> In ("fs", n) (reachable_session segs) -> call_guard c ("fs", n) = CallDenied) /\
+  (forall (segs : list (config * list load_request)) (c : config) (n : string),
+     caps_net c = false -> In ("net", n) (reachable_session segs) -> call_guard c ("net", n) = CallDenied).
+Proof. exact (conj fs_revoked_refused net_revoked_refused). Qed.
 
 (* no native spawns a process when allow_exec is off; the four exec* natives answer CapabilityDenied *)
 Theorem exec_refuses :
@@ -82,21 +90,40 @@ Theorem version_checked_after_load_general :
     native_module_decision vreq ver sat c (Some p) f = [ELoaded; ERefusedVersion].
 Proof. exact version_checked_after_load. Qed.
 
-(* the source route applies the project manifest's policy ... *)
-Theorem source_route_manifest_applies :
-  forall (vreq ver : Type) (sat : vreq -> ver -> bool) (c : config) (project embedded : option (manifest vreq))
+(* every run route (source, assembly, bytecode without embedded manifest) applies the project
+   manifest's policy; bytecode with an embedded manifest applies that one *)
+Theorem route_manifest_applies :
+  forall (vreq ver : Type) (sat : vreq -> ver -> bool) (r : route) (c : config) (project : option (manifest vreq))
          (path : list string) (f : nfile ver),
-    route_decision vreq ver sat RSource c project embedded path f
+    route_decision vreq ver sat r c project None path f
     = native_module_decision vreq ver sat c (match project with Some m => module_policy vreq m path | None => None end) f.
-Proof. exact source_route_applies_manifest. Qed.
+Proof. exact route_applies_project_manifest. Qed.
 
-(* ... REFUTED for the assembly route (no manifest is passed) and for bytecode without an embedded
-   manifest: a module the project manifest denies is loaded, initialised and registered *)
-Theorem aasm_route_ignores_manifest_refuted :
+Theorem avbc_embedded_manifest_applies :
+  forall (vreq ver : Type) (sat : vreq -> ver -> bool) (c : config) (project : option (manifest vreq)) (emb : manifest vreq)
+         (path : list string) (f : nfile ver),
+    route_decision vreq ver sat RAvbc c project (Some emb) path f = native_module_decision vreq ver sat c (module_policy vreq emb path) f.
+Proof. exact avbc_route_embedded_manifest. Qed.
+
+Theorem denied_capability_refuses_on_every_route :
+  forall (vreq ver : Type) (sat : vreq -> ver -> bool) (r : route) (c : config) (m : manifest vreq) (p : policy vreq)
+         (path : list string) (f : nfile ver) (cap : string),
+    module_policy vreq m path = Some p -> In cap (p_caps p) -> In cap (denied c) ->
+    exists bad, route_decision vreq ver sat r c (Some m) None path f = [ERefusedCap bad].
+Proof. exact denied_capability_refuses_on_every_route. Qed.
+
+Example routes_agree :
   route_decision ver3 ver3 ver_geb RSource w_cfg_deny (Some [("sentry", w_policy_denied)]) None ["sentry"] w_file = [ERefusedCap "danger"] /\
-  route_decision ver3 ver3 ver_geb RAasm w_cfg_deny (Some [("sentry", w_policy_denied)]) None ["sentry"] w_file = [ELoaded; EInit; ERegistered] /\
-  route_decision ver3 ver3 ver_geb RAvbc w_cfg_deny (Some [("sentry", w_policy_denied)]) None ["sentry"] w_file = [ELoaded; EInit; ERegistered].
-Proof. exact aasm_witness. Qed.
+  route_decision ver3 ver3 ver_geb RAasm w_cfg_deny (Some [("sentry", w_policy_denied)]) None ["sentry"] w_file = [ERefusedCap "danger"] /\
+  route_decision ver3 ver3 ver_geb RAvbc w_cfg_deny (Some [("sentry", w_policy_denied)]) None ["sentry"] w_file = [ERefusedCap "danger"].
+Proof. exact routes_agree_witness. Qed.
+
+(* ABOUT THE OLD DEFINITION ONLY (before the repair of KF-C11-2 the assembly route passed no manifest
+   and bytecode only an embedded one): a module the project manifest denies was loaded and run *)
+Theorem old_routes_ignored_manifest_witness :
+  route_decision_before_fix ver3 ver3 ver_geb RAasm w_cfg_deny (Some [("sentry", w_policy_denied)]) None ["sentry"] w_file = [ELoaded; EInit; ERegistered] /\
+  route_decision_before_fix ver3 ver3 ver_geb RAvbc w_cfg_deny (Some [("sentry", w_policy_denied)]) None ["sentry"] w_file = [ELoaded; EInit; ERegistered].
+Proof. exact old_routes_ignored_manifest. Qed.
 
 (* the two FNV-1a implementations (file in chunks / byte slice) agree on every byte sequence *)
 Theorem fnv_file_eq_fnv_bytes : forall chunks : list (list N), fnv_file chunks = fnv_bytes (List.concat chunks).
